@@ -112,6 +112,9 @@ def check(mod, prop, tier, seed, t0):
     proof_ok = not aud["problems"] and aud["obligations"] > 0 and aud["discharged"] == aud["obligations"]
     # 2/3. correspondence + oracle on corpus and generated cases
     cases = list(mod.corpus()) + list(mod.generate(rng, tier))
+    if os.environ.get("VERIF_KINDS"):          # development aid: restrict to some case kinds
+        only = set(os.environ["VERIF_KINDS"].split(","))
+        cases = [c for c in cases if c.get("kind") in only]
     outs = _impl_all(mod, cases, tier)
     model_ok, model_problem = True, None
     try:
@@ -120,6 +123,11 @@ def check(mod, prop, tier, seed, t0):
         # the model side is broken (driver does not build): still evaluate the oracle
         model_ok, model_problem = False, str(e)
         diffs, fails, per_case, herr = _evaluate(mod, cases, outs, with_model=False)
+    if os.environ.get("VERIF_DEBUG"):
+        for i, d in diffs[:40]:
+            print("DIFF", json.dumps(cases[i], default=str)[:400], "=>", str(d)[:600])
+        for i, f in fails[:40]:
+            print("FAIL", f["key"], str(f["msg"])[:400])
     if herr:
         raise core.ToolFailure(f"harness error in impl worker: {herr[0][1]}\n{herr[0][2]}")
     new_fails = [(i, f) for i, f in fails if f["key"] not in known]
@@ -150,6 +158,9 @@ def check(mod, prop, tier, seed, t0):
     for k, n in sorted(known_hits.items()):
         lines.append(f"KNOWN-FINDING: property={prop} {k} — {known[k]} (hit {n}x this run)")
     rc = 0
+    if os.environ.get("VERIF_DEBUG"):
+        new_fails_dbg, new_fails = new_fails, []
+        print(f"DEBUG: {len(new_fails_dbg)} new failures not shrunk / reported")
     if new_fails:
         # one violation line per distinct key
         seen = set()
